@@ -1,18 +1,22 @@
 (* C10 — trust-region Newton: executable model (definitions only) of
      src/Algorithms/GradientDescent/TrustRegionNewton.cpp   borderDistance, errorDifference, trustRegionCG (Steihaug CG,
                                                             Nocedal/Wright Algorithm 7.2), TrustRegionNewton::init / step
-   AS CODED at the pinned tree, written once over the abstract number type of C10Gen.v (record [ops T]: + - * / sqrt <
+   AS CODED (after the repair fd35712b of borderDistance), written once over the abstract number type of C10Gen.v (record [ops T]: + - * / sqrt <
    ==) plus one more operation [leb] (<=), then instantiated with the exact rationals (C10Model.v conventions: every
    result reduced by Qred; [sq] stands for std::sqrt and is an arbitrary function Q -> Q).  ocaml/c10_driver.ml
    instantiates the same extracted terms with IEEE doubles and replays every single step of the real class from the state
    the C++ reports (tools/c10.py).
 
    Statement-by-statement correspondence:
-     * tr_border      borderDistance: p = 2 d'z / d'd, q = (z'z - delta^2) / d'd, tau = p/2 + sqrt((p/2)^2 - q).
-                      The sign of p/2 is the one of the C++ text ("p-q formula" with +p/2; the root of
-                      tau^2 + p tau + q = 0 is -p/2 + sqrt(..)): see C10TrustRegionProofs.v for what follows from it.
+     * tr_border      borderDistance: p = 2 d'z / d'd, q = (z'z - delta^2) / d'd, tau = -p/2 + sqrt((p/2)^2 - q), the
+                      non-negative root of tau^2 + p tau + q = 0, i.e. of |z + tau d| = delta.
+     * tr_border_old  the formula before the repair fd35712b: tau = +p/2 + sqrt((p/2)^2 - q).  Equal to tr_border in the
+                      first CG iteration (z = 0, p = 0), too long by p afterwards: the step left the trust region and the
+                      objective could increase (regression witnesses in C10TrustRegionProofs.v; tr_cg_old / tr_step_old
+                      are the same loop and the same step with that formula).
      * tr_errdiff     errorDifference: (residual'step + gradient'step) / 2.
-     * tr_cg_loop     the for loop of trustRegionCG, one constructor of fuel per iteration (fuel = 10 * dimension); the
+     * tr_cg_loop     the for loop of trustRegionCG (the border-distance function is a parameter, so that the repaired and
+                      the old formula share the text of the loop), one constructor of fuel per iteration (fuel = 10 * dimension); the
                       candidate step + alpha * direction of the border test is computed once and reused for the update
                       (the C++ evaluates the same expression twice).  Exit codes (not in the C++, for statistics and for
                       the case analysis of the proofs): 0 gradient below tolerance before the loop, 1 non-positive
@@ -66,6 +70,14 @@ Section GenericTR.
     let d2 := g_normsq d in
     let p := (g_two * gdot T O d z) / d2 in
     let q := (z2 - g_sqr delta) / d2 in
+    o_neg O p / g_two + o_sqrt O (g_sqr (p / g_two) - q).
+
+  (* the formula before the repair fd35712b *)
+  Definition tr_border_old (z d : gvec) (delta : T) : T :=
+    let z2 := g_normsq z in
+    let d2 := g_normsq d in
+    let p := (g_two * gdot T O d z) / d2 in
+    let q := (z2 - g_sqr delta) / d2 in
     p / g_two + o_sqrt O (g_sqr (p / g_two) - q).
 
   (* errorDifference(step, residual, gradient) *)
@@ -75,6 +87,9 @@ Section GenericTR.
   (* result of trustRegionCG: solution.first, solution.second; exit code and number of completed iterations *)
   Record tr_cg_result : Type := mkCG { cg_pred : T; cg_step : gvec; cg_exit : nat; cg_iters : nat }.
 
+  Section CGLoop.
+  Variable border : gvec -> gvec -> T -> T.
+
   Fixpoint tr_cg_loop (fuel : nat) (H : list gvec) (g : gvec) (tol2 delta : T)
                       (step residual direction : gvec) (cur : T) (it : nat) : tr_cg_result :=
     match fuel with
@@ -83,7 +98,7 @@ Section GenericTR.
       let Hdir := g_mv H direction in
       let normH := gdot T O direction Hdir in
       if leb normH 0 then
-        let tau := tr_border step direction delta in
+        let tau := border step direction delta in
         let step' := gvadd T O step (gvscale T O tau direction) in
         let res' := gvadd T O residual (gvscale T O tau Hdir) in
         mkCG (tr_errdiff step' res' g) step' 1 it
@@ -91,7 +106,7 @@ Section GenericTR.
         let alpha := cur / normH in
         let cand := gvadd T O step (gvscale T O alpha direction) in
         if leb (g_sqr delta) (g_normsq cand) then
-          let tau := tr_border step direction delta in
+          let tau := border step direction delta in
           let step' := gvadd T O step (gvscale T O tau direction) in
           let res' := gvadd T O residual (gvscale T O tau Hdir) in
           mkCG (tr_errdiff step' res' g) step' 2 it
@@ -106,10 +121,14 @@ Section GenericTR.
     end.
 
   (* trustRegionCG(hessian, gradient, tolerance, delta) *)
-  Definition tr_cg (H : list gvec) (g : gvec) (tol delta : T) : tr_cg_result :=
+  Definition tr_cg_with (H : list gvec) (g : gvec) (tol delta : T) : tr_cg_result :=
     let cur := g_normsq g in
     if cur <? g_sqr tol then mkCG 0 (map (fun _ => 0) g) Datatypes.O Datatypes.O
     else tr_cg_loop (10 * length g) H g (g_sqr tol) delta (map (fun _ => 0) g) g (gvneg T O g) cur Datatypes.O.
+  End CGLoop.
+
+  Definition tr_cg : list gvec -> gvec -> T -> T -> tr_cg_result := tr_cg_with tr_border.
+  Definition tr_cg_old : list gvec -> gvec -> T -> T -> tr_cg_result := tr_cg_with tr_border_old.      (* before fd35712b *)
 
   (* ---------------- the optimizer ---------------- *)
   Record gtr_state : Type := mkTR {
@@ -152,6 +171,12 @@ Section GenericTR.
   Definition tr_step (s : gtr_state) : gtr_state :=
     let r := tr_solve s in tr_step_with (cg_pred r) (cg_step r) s.
 
+  (* step with the border formula of before fd35712b *)
+  Definition tr_solve_old (s : gtr_state) : tr_cg_result :=
+    tr_cg_old (tr_hess s) (tr_grad s) (tr_tolerance (tr_grad s)) (tr_delta s).
+  Definition tr_step_old (s : gtr_state) : gtr_state :=
+    let r := tr_solve_old s in tr_step_with (cg_pred r) (cg_step r) s.
+
   (* a run in which the sub-problem solver is replaced by an arbitrary oracle (step number, state) -> (predicted, step) *)
   Fixpoint tr_run_with (orc : nat -> gtr_state -> T * gvec) (n : nat) (s : gtr_state) : gtr_state :=
     match n with
@@ -183,6 +208,8 @@ Definition q01 : Q := 3602879701896397 # 36028797018963968.
 
 Definition tr_state : Type := gtr_state Q.
 Definition q_border (sq : Q -> Q) : vec -> vec -> Q -> Q := tr_border Q (qops sq).
+Definition q_border_old (sq : Q -> Q) : vec -> vec -> Q -> Q := tr_border_old Q (qops sq).
+Definition q_cg_old (sq : Q -> Q) : list vec -> vec -> Q -> Q -> tr_cg_result Q := tr_cg_old Q (qops sq) Qle_bool.
 Definition q_cg (sq : Q -> Q) : list vec -> vec -> Q -> Q -> tr_cg_result Q := tr_cg Q (qops sq) Qle_bool.
 Definition q_tr_init (sq : Q -> Q) (fd : vec -> Q * vec * list vec) : vec -> Q -> tr_state := tr_init Q q01 fd.
 Definition q_tr_step_with (sq : Q -> Q) (f : vec -> Q) (fd : vec -> Q * vec * list vec) : Q -> vec -> tr_state -> tr_state :=
@@ -190,6 +217,8 @@ Definition q_tr_step_with (sq : Q -> Q) (f : vec -> Q) (fd : vec -> Q * vec * li
 Definition q_tr_solve (sq : Q -> Q) : tr_state -> tr_cg_result Q := tr_solve Q (qops sq) Qle_bool.
 Definition q_tr_step (sq : Q -> Q) (f : vec -> Q) (fd : vec -> Q * vec * list vec) : tr_state -> tr_state :=
   tr_step Q (qops sq) Qle_bool q099 f fd.
+Definition q_tr_step_old (sq : Q -> Q) (f : vec -> Q) (fd : vec -> Q * vec * list vec) : tr_state -> tr_state :=
+  tr_step_old Q (qops sq) Qle_bool q099 f fd.
 Definition q_tr_run (sq : Q -> Q) (f : vec -> Q) (fd : vec -> Q * vec * list vec) : nat -> tr_state -> tr_state :=
   tr_run Q (qops sq) Qle_bool q099 f fd.
 Definition q_tr_run_with (sq : Q -> Q) (f : vec -> Q) (fd : vec -> Q * vec * list vec)
